@@ -365,3 +365,42 @@ func C16TerminateThenCall() {
 	sym.Assert(atomic.LoadInt32(&o.terminated) == 1, "terminate-then-call/termination-hook-exactly-once")
 	sym.Reach("terminate-then-call-done")
 }
+
+// C16LateRegistrations: an object with three subscribers terminates while two more registrations are
+// being handled: each of the three long-standing subscribers is told of the termination exactly once,
+// whatever happens to the late ones.
+func C16LateRegistrations() {
+	h := newSignalHandler()
+	h.Activate(Activation{ServiceID: 9, ObjectID: 1})
+	streams := make([]*zzStream, 5)
+	chans := make([]Channel, 5)
+	for i := range chans {
+		streams[i] = newZZStream()
+		chans[i] = NewChannel(net.NewEndPoint(streams[i]), DefaultCap())
+	}
+	for i := 0; i < 3; i++ {
+		msg := zzFrame(net.Call, 9, 1, 0, uint32(10+i), zzRegisterPayload(1, 0x60, uint64(70+i)))
+		sym.Assert(h.RegisterEvent(&msg, chans[i]) == nil, "register-ok")
+	}
+	done := make(chan bool, 1)
+	go func() {
+		for i := 3; i < 5; i++ {
+			msg := zzFrame(net.Call, 9, 1, 0, uint32(10+i), zzRegisterPayload(1, 0x60, uint64(70+i)))
+			h.RegisterEvent(&msg, chans[i])
+		}
+		done <- true
+	}()
+	h.OnTerminate()
+	<-done
+	sym.Quiesce()
+	for i := 0; i < 3; i++ {
+		told := 0
+		for _, f := range streams[i].sentMessages() {
+			if f.Header.Type == net.Error && f.Header.ID == uint32(10+i) {
+				told++
+			}
+		}
+		sym.Assert(told == 1, "late-registrations/long-standing-subscriber-not-told-exactly-once")
+	}
+	sym.Reach("late-registrations-done")
+}
